@@ -31,7 +31,7 @@ def run_fresh(calls, hashseed=None, timeout=100):
 
 def case_history(case):
     out = {"history": run_fresh(case["calls"], hashseed=case.get("hashseed_hist", 0))}
-    out["probe_alone"] = {hs: run_fresh([case["calls"][-1]], hashseed=hs) for hs in case["hashseeds"]}
+    out["probe_alone"] = {hs: run_fresh([case["calls"][-1]], hashseed=hs) for hs in [case.get("hashseed_hist", 0)] + list(case["hashseeds"])}
     return out
 
 
@@ -128,6 +128,20 @@ def run(ctx, driver):
                          {"probe_after_history": _brief(last), "probe_in_fresh_interpreter": _brief(a), "options_written_by_history": written,
                           "signature": {"site": "Config", "leak": True}})
                 break
+        # the option state left behind must not depend on the history either; when it does, search for an input-visible effect:
+        # the literal result strings of the probe (same PYTHONHASHSEED) after the history vs. first in a fresh interpreter
+        same_seed = res["probe_alone"].get(case.get("hashseed_hist", 0)) or res["probe_alone"].get(str(case.get("hashseed_hist", 0)))
+        if same_seed and "runner_error" not in same_seed:
+            a0 = same_seed["calls"][0]
+            if a0["config"] != last["config"]:
+                leaked = sorted(k for k in last["config"] if last["config"][k] != a0["config"].get(k))
+                if a0.get("raw") != last.get("raw"):
+                    ctx.fail("result-depends-on-history", {"calls": case["calls"]},
+                             {"what": "option state leaks and changes the returned expressions", "leaked_options": leaked,
+                              "probe_after_history": json.dumps(last.get("raw"))[:400], "probe_in_fresh_interpreter": json.dumps(a0.get("raw"))[:400],
+                              "signature": {"site": "Config", "leak": True, "raw": True}})
+                else:
+                    ctx.tie_break("option-state-depends-on-history", {"leaked_options": leaked, "calls": [c["indict"].get("options") for c in case["calls"]]})
         vals = [json.dumps(a["calls"][0].get("result"), sort_keys=True) for a in res["probe_alone"].values() if "runner_error" not in a]
         if len(set(vals)) > 1:
             ctx.fail("result-depends-on-hash-seed", {"calls": case["calls"][-1:]}, {"signature": {"site": "PYTHONHASHSEED"}})
